@@ -6,6 +6,7 @@
      ConnectivitySlot(out, dom, ipv) = out*6 + dom*2 + ipv          dom: 0 tcp, 1 dns-udp, 2 data-udp; ipv: 0 v4, 1 v6
      TupleKey(flow)  = sip(16, v4-mapped) dip(16) sport(2, network order) dport(2) l4proto(1) zero padding(3)   = 40 bytes
      DomainKey(addr) = the 16 address bytes (v4-mapped)
+     PortRange(a,b)  = port_start(2, host order) port_end(2) zero padding(12): the match-set value of a port()/sport() rule
      LpmKey(prefix)  = prefixlen(4, host order; +96 for IPv4) data(16)                  (see Cidr.tla)
    TLC enumerates the boundary inputs and emits the expected key of each; the harness compares the bytes produced by
    the Go constructors and the keys the kernel program actually used (which connectivity slot makes the verdict flip,
@@ -30,6 +31,7 @@ Init == \/ /\ kind = "connectivity" /\ inp \in {[out |-> o, dom |-> d, ipv |-> v
                                      \cup {[sip |-> s, dip |-> d, sport |-> sp, dport |-> dp, l4 |-> l] :
                                             s \in Addr6s, d \in Addr6s, sp \in {1, 256, 65535}, dp \in {53, 443}, l \in {6, 17}}
         \/ /\ kind = "domain" /\ inp \in {[addr |-> a] : a \in Addr4s \cup Addr6s}
+        \/ /\ kind = "portrange" /\ inp \in {[sport |-> a, dport |-> b] : a \in {1, 255, 256, 8000}, b \in {256, 9000, 65535}}   \* start, end
 Next == UNCHANGED vars
 Spec == Init /\ [][Next]_vars
 
@@ -37,10 +39,14 @@ ConnectivitySlot(o, d, v) == o * 6 + d * 2 + v
 BE16(p) == <<p \div 256, p % 256>>
 TupleKey(f) == Mapped(f.sip) \o Mapped(f.dip) \o BE16(f.sport) \o BE16(f.dport) \o <<f.l4>> \o <<0, 0, 0>>
 DomainKey(a) == Mapped(a)
+\* struct port_range { __u16 port_start; __u16 port_end; } inside the 16-byte match-set value, fields in host (little-endian) order
+LE16(p) == <<p % 256, p \div 256>>
+PortRangeVal(a, b) == LE16(a) \o LE16(b) \o <<0,0,0,0,0,0,0,0,0,0,0,0>>
 
 Expected == CASE kind = "connectivity" -> [slot |-> ConnectivitySlot(inp.out, inp.dom, inp.ipv), bytes |-> <<>>]
               [] kind = "tuple" -> [slot |-> 0, bytes |-> TupleKey(inp)]
               [] kind = "domain" -> [slot |-> 0, bytes |-> DomainKey(inp.addr)]
+              [] kind = "portrange" -> [slot |-> 0, bytes |-> PortRangeVal(inp.sport, inp.dport)]
 \* slots are within the map and never alias
 SlotsSane == kind = "connectivity" => (Expected.slot >= 0 /\ Expected.slot < 256 * 6)
 TupleLen == kind = "tuple" => Len(Expected.bytes) = 40
